@@ -36,7 +36,7 @@ man = dict(
     hooks=dict(guard='SONIC_CPP_VERIF', enable='none needed: no hook commits exist; code paths are selected by compiler flags only (see DESIGN.md section 9)',
                baseline_off_cmd='python3 tools/baseline.py', source_commits=[], add_only=True),
     engines=[dict(name='verif-harness', path='src/common', serves_properties=[c['property_id'] for c in checks],
-                  kind_free_text='property runtime: Src pick-sequence abstraction driven by rapidcheck (integrated shrinking), a seeded counter PRNG, libFuzzer bytes, or a replay file; pick-list shrinker; stats/evidence'),
+                  kind_free_text='property runtime: Src pick-sequence abstraction driven by rapidcheck (generation only: its shrinking is switched off), a seeded counter PRNG, libFuzzer bytes, or a replay file; bounded pick-list shrinker; replay files that carry the preceding cases; per-case watchdog; stats/evidence'),
              dict(name='refjson', path='src/common/refjson.cpp', serves_properties=[c['property_id'] for c in checks],
                   kind_free_text='independent RFC 8259 reference: recogniser, parser to model values, unescaper, writer, pointer resolver')],
     checks=checks,
